@@ -20,10 +20,36 @@ From Coq Require Import List NArith Bool Arith String.
 From FV Require Import SlabConc.Skeleton SlabConc.Shapes SlabConc.ConcModel.
 From FV Require Import Slab.SlabModel Slab.SlabFail Slab.SlabInv Slab.SlabC01 SlabConc.ConcSlabModel SlabConc.ConcSlabState
   SlabConc.ConcSlabSolo SlabConc.ConcSlabStep SlabConc.ConcSlabProofs SlabConc.ConcSlabCheck SlabConc.ConcSlabSoloRun.
+From FV Require Import SlabConc.SkeletonSound.
 From FV Require Import Gen.SlabSkeleton.
+From FV Require Gen.SlabSkeletonTR.
 Import ListNotations.
 Open Scope list_scope.
 Local Open Scope N_scope.
+
+(* ---- generated obligation, second instantiation of the source: slab.hpp preprocessed with -DFRG_SLAB_TRACK_REGIONS
+        (the pool-wide region tree _frame_tree and its hooks exist only there; translator/gen_slabconc.py writes
+        Gen/SlabSkeletonTR.v from that AST on every run).  The same checker, the same field -> lock table:
+        _frame_tree / frame_hook / _usedPages only under _tree_mutex, bucket fields only under the bucket mutex, policy
+        callbacks with no lock, no mutable static storage.  (_verify_integrity / _verify_frame_integrity are stubbed
+        there: the translator checks that enable_checking is the constant false and that they are called only under
+        `if(enable_checking)`.) ---- *)
+Theorem skeleton_disciplined_track_regions : check_skeleton Gen.SlabSkeletonTR.actual = true.
+Proof. vm_compute. reflexivity. Qed.
+Print Assumptions skeleton_disciplined_track_regions.
+
+Theorem C05_lock_discipline_track_regions :
+  forall f tr, In f api -> api_trace Gen.SlabSkeletonTR.actual f tr -> disciplined s0 tr.
+Proof. exact (check_skeleton_sound Gen.SlabSkeletonTR.actual skeleton_disciplined_track_regions). Qed.
+Print Assumptions C05_lock_discipline_track_regions.
+
+Example skeleton_track_regions_nonvacuous :
+  existsb (fun x => String.eqb (fst x) "allocate") Gen.SlabSkeletonTR.actual = true /\
+  Gen.SlabSkeletonTR.actual <> Gen.SlabSkeleton.actual.
+Proof.
+  split; [vm_compute; reflexivity|]. intro H.
+  apply (f_equal (fun sk => Skeleton.lookup sk "free_huge_")) in H. vm_compute in H. discriminate H.
+Qed.
 
 (* ---- generated obligation: the lock shapes of the model's call paths (allocate: fast, slow, map failure, large,
         large map failure; free / deallocate: slab, large) are path shapes of the skeleton regenerated from
